@@ -990,11 +990,12 @@ def f_sqrt(a, np_sem=False):
             return NAN
         raise ValueError("math domain error")
     bad = False
-    key = ('sqrt', z3.simplify(vz).get_id())
+    vzs = z3.simplify(vz)
+    key = ('sqrt', vzs.get_id())
     ent = p.ghost.get(key)
     if ent is None:
         y = z3.Real(p.fresh_name('sqrt'))
-        p.ghost[key] = (y, vz)
+        p.ghost[key] = (y, vz, vzs)      # keep the simplified term alive: its AST id is the cache key
         p.axiom(y >= 0)
         if p.cfg.uflin:
             p.exact.append(z3.Implies(vz >= 0, y * y == vz))
